@@ -84,6 +84,61 @@ fn main() {
             }
         }
     }
+    // batch shapes: every row-length pattern of <= 3 rows over {dim, dim-1, dim+1, 0} (plus a NaN
+    // row) through parallel_insert_batch, on an empty and on a non-empty index, then searches with
+    // well-formed queries. The ANN backend sizes its records from the first vector it receives, so
+    // a malformed row that slips through must not reach the distance kernels.
+    let mut batch_shapes = 0u64;
+    for &dim in &dims {
+        let lens: Vec<usize> = vec![dim, dim.saturating_sub(1), dim + 1, 0];
+        let mut patterns: Vec<Vec<usize>> = Vec::new();
+        for &a in &lens {
+            patterns.push(vec![a]);
+            for &b in &lens {
+                patterns.push(vec![a, b]);
+                for &c in &lens {
+                    patterns.push(vec![a, b, c]);
+                }
+            }
+        }
+        for metric in [DistanceMetric::Euclidean, DistanceMetric::Cosine] {
+            for &m in &ms {
+                for pre in [false, true] {
+                    for (pi, pat) in patterns.iter().enumerate() {
+                        for nan_row in [false, true] {
+                            if nan_row && pi % 7 != 0 {
+                                continue;
+                            }
+                            batch_shapes += 1;
+                            let Ok(mut idx) = HnswVectorIndex::new_with_params(dim, 8, metric, m, (m * 2).max(16), true) else { continue };
+                            if pre {
+                                let _ = idx.add_vector(100, &vecf(dim, 3));
+                            }
+                            let rows: Vec<Vec<f32>> = pat
+                                .iter()
+                                .enumerate()
+                                .map(|(j, &l)| {
+                                    let mut v = vecf(l, 10 + j as u32);
+                                    if nan_row && j == 0 && !v.is_empty() {
+                                        v[0] = f32::NAN;
+                                    }
+                                    v
+                                })
+                                .collect();
+                            let batch: Vec<(&[f32], usize)> = rows.iter().enumerate().map(|(j, r)| (r.as_slice(), j)).collect();
+                            let _ = idx.parallel_insert_batch(&batch);
+                            idx.complete_sequential_inserts();
+                            calls += 1;
+                            let _ = idx.knn_search(&vecf(dim, 9), 3);
+                            let _ = idx.knn_search_with_ef(&vecf(dim, 7), 10_000, Some(10_000));
+                            let _ = idx.add_vector(50, &vecf(dim, 4));
+                            let _ = idx.knn_search(&vecf(dim, 5), 2);
+                        }
+                    }
+                }
+            }
+        }
+    }
     // backend level: inserts, overwrites, deletes, tombstone compaction, batch search, concurrent readers
     let mut backend_runs = 0u64;
     for &dim in &[3usize, 17, 130] {
@@ -124,5 +179,5 @@ fn main() {
             }
         }
     }
-    println!("{{\"configs\":{configs},\"sequences\":{sequences},\"calls\":{calls},\"depth\":{depth},\"backend_runs\":{backend_runs}}}");
+    println!("{{\"configs\":{configs},\"sequences\":{sequences},\"calls\":{calls},\"depth\":{depth},\"backend_runs\":{backend_runs},\"batch_shapes\":{batch_shapes}}}");
 }
